@@ -207,6 +207,32 @@ func genC14(g *Gen) {
 		g.do(Step{Op: "ReadJSON", Other: f + 1, Reads: g.readSchedule(0)})
 		g.end()
 	}
+	// float columns from the structured binary64 sample of C16 (finite values): written and read back
+	fs := []float64{}
+	for _, f := range g.c16Floats() {
+		if !math.IsInf(f, 0) {
+			fs = append(fs, f)
+		}
+	}
+	g.rng.Shuffle(len(fs), func(i, j int) { fs[i], fs[j] = fs[j], fs[i] })
+	if !g.thorough() && len(fs) > 3000 {
+		fs = fs[:3000]
+	}
+	for i := 0; i < len(fs); i += 50 {
+		j := i + 50
+		if j > len(fs) {
+			j = len(fs)
+		}
+		txt := make([]string, j-i)
+		for k, f := range fs[i:j] {
+			txt[k] = fmtFloat(f)
+		}
+		g.begin("json floats")
+		f := g.do(Step{Op: "New", Recv: -1, HasOrder: true, ColOrder: bsList([]string{"F"}), Data: []ColData{{Name: toBS("F"), Kind: "float", Floats: txt}}})
+		g.do(Step{Op: "ToJSON", Recv: f})
+		g.do(Step{Op: "ReadJSON", Other: f + 1, Reads: g.readSchedule(0)})
+		g.end()
+	}
 	// hand-written documents for ReadJSON alone
 	docs := []string{`[]`, `[{"a":1,"b":"x"},{"a":2.5,"b":null}]`, `[{"a":true},{"a":false}]`, `[{"a":1},{"a":"x"}]`, `[{"a":1},{"b":2}]`, `[{"a":null},{"a":"s"}]`,
 		`{"a":[1,2]}`, `[{"a":1}`, `[{"a":1e3,"b":-0.0,"c":"é𝄞"}]`, `[{"b":1,"a":2}]`}
